@@ -153,6 +153,7 @@ Fixpoint number_outputs (runs : list (list entry)) (next : N) : list (fmeta * li
 
 Section STEPS.
 Variable d1fix : bool.
+Variable d14fix : bool.
 Variable mfs : N.        (* max_file_size: only enters through the size tests of the code *)
 
 (** internal steps and client operations; the parameters are the nondeterministic choices *)
@@ -198,7 +199,7 @@ Definition do_flush (s : lsm) : lsm :=
 
 Definition do_compact (s : lsm) (level : nat) (seed : list N) (cuts : list nat) : lsm :=
   let v := l_ver s in
-  match finalize_inputs d1fix mfs v level (files_of v level seed) with
+  match finalize_inputs d1fix d14fix mfs v level (files_of v level seed) with
   | None => set_panic s
   | Some ci =>
         let inputs := map (fun f => file_entries s (fm_num f)) (ci_in0 ci ++ ci_in1 ci) in
@@ -221,7 +222,7 @@ Definition do_compact (s : lsm) (level : nat) (seed : list N) (cuts : list nat) 
     grandparent overlap is small (never for manual compactions; the harness reports which) *)
 Definition do_trivial_move (s : lsm) (level : nat) (seed : list N) : lsm :=
   let v := l_ver s in
-  match finalize_inputs d1fix mfs v level (files_of v level seed) with
+  match finalize_inputs d1fix d14fix mfs v level (files_of v level seed) with
   | None => set_panic s
   | Some ci =>
       match ci_in0 ci with
